@@ -1,4 +1,295 @@
-//! C03 monitor (not written yet).
-use crate::ctx::Ctx;
+//! C03 — every encoded message is well-formed per the binary format of the spec.
+use super::common::*;
+use crate::conv::*;
+use crate::corpus::registry as reg;
+use crate::ctx::{catch, hex, Ctx};
+use crate::gen::types::*;
+use crate::gen::values::*;
+use crate::model::subtype::requal2;
+use crate::model::wire::*;
+use crate::model::*;
+use crate::rng::{hash_str, Rng};
+use candid::ser::IDLBuilder;
+use candid::IDLArgs;
+use serde_json::json;
 
-pub fn run(_ctx: &mut Ctx) {}
+/// Judge one encoder output against the source types and abstract values.
+#[allow(clippy::too_many_arguments)]
+fn judge(ctx: &mut Ctx, api: &str, bytes: &[u8], env: &REnv, types: &[RType], want: &[RValue], label: &str, extra: serde_json::Value) -> bool {
+    let input = || json!({"api": api, "bytes": hex(bytes), "source": label, "detail": extra});
+    let d = match decode(bytes) {
+        Ok(d) => d,
+        Err(DecErr::Malformed(m)) => {
+            let class: String = m.chars().filter(|c| !c.is_ascii_digit()).collect();
+            ctx.violation(&format!("malformed-output|{api}|{class}"), &format!("the reference decoder rejects the encoder's output: {m}"), input());
+            return false;
+        }
+        Err(DecErr::OverLimit(m)) => {
+            ctx.count("excluded:over-limit");
+            let _ = m;
+            return true;
+        }
+    };
+    if d.nonminimal {
+        ctx.violation(&format!("nonminimal-leb|{api}"), "a LEB128 number in the output is not minimal", input());
+        return false;
+    }
+    if d.has_future {
+        ctx.violation(&format!("future-type|{api}"), "the encoder emitted an unknown type opcode", input());
+        return false;
+    }
+    if d.types.len() != types.len() {
+        ctx.violation(&format!("arg-count|{api}"), &format!("{} argument types on the wire, {} encoded", d.types.len(), types.len()), input());
+        return false;
+    }
+    for (k, (dt, t)) in d.types.iter().zip(types.iter()).enumerate() {
+        if !requal2(&d.env, dt, env, t) {
+            ctx.violation(
+                &format!("type-differs|{api}|{}", shape(env, t, 2)),
+                &format!("argument {k}: wire type {dt} in [{}] is not the source type {t} in [{env}]", d.env),
+                input(),
+            );
+            return false;
+        }
+    }
+    if let Some(df) = diff_all(want, &d.values) {
+        ctx.violation(&format!("value-differs|{api}"), &format!("source value (left) vs value read back by the reference decoder (right): {df}"), input());
+        return false;
+    }
+    true
+}
+
+fn native_case(ctx: &mut Ctx, rng: &mut Rng) {
+    let n_types = reg::len();
+    let nargs = match rng.below(6) {
+        0 => 0,
+        1 | 2 | 3 => 1,
+        4 => 2,
+        _ => 3,
+    };
+    let picks: Vec<usize> = (0..nargs).map(|_| rng.usize(n_types)).collect();
+    let seed = rng.next();
+    let fuel = *rng.pick(&[1i64, 8, 30, 80]);
+    let build = |picks: &[usize]| -> Result<(Vec<u8>, Vec<RValue>), String> {
+        let mut r = Rng::new(seed);
+        let mut b = IDLBuilder::new();
+        let mut ms = Vec::new();
+        for i in picks {
+            ms.push(reg::with(*i, |t| t.arg_into(&mut b, &mut r, fuel))?);
+        }
+        match catch(|| b.serialize_to_vec()) {
+            Err(p) => Err(format!("panic|{}", p.sig())),
+            Ok(Err(e)) => Err(format!("error|{e}")),
+            Ok(Ok(v)) => Ok((v, ms)),
+        }
+    };
+    let names: Vec<String> = picks.iter().map(|i| reg::with(*i, |t| t.name())).collect();
+    let label = names.join(", ");
+    let (bytes, models) = match build(&picks) {
+        Ok(x) => x,
+        Err(e) => {
+            ctx.violation(
+                &format!("encode-fails|native|{}", e.split('|').take(2).collect::<Vec<_>>().join("|").chars().filter(|c| !c.is_ascii_digit()).take(80).collect::<String>()),
+                &format!("encoding generated values of ({label}) failed: {e}"),
+                json!({"types": label, "seed": seed}),
+            );
+            return;
+        }
+    };
+    // source types as a model
+    let mut env = REnv::new();
+    let mut ts = Vec::new();
+    for i in &picks {
+        let (e, t) = reg::with(*i, |t| t.rtype());
+        let off = env.append(&e);
+        ts.push(t.shift_refs(off));
+    }
+    let ok = judge(ctx, "Encode!", &bytes, &env, &ts, &models, &label, json!({"seed": seed}));
+    // determinism (hash containers iterate in a per-instance order: excluded)
+    if ok && !label.contains("Hash") {
+        if let Ok((again, _)) = build(&picks) {
+            if again != bytes {
+                ctx.violation("nondeterministic|Encode!", "encoding the same arguments twice gave different bytes", json!({"types": label, "first": hex(&bytes), "second": hex(&again)}));
+            }
+        }
+    }
+    for n in &names {
+        ctx.count(&format!("cover:native:{}", n.split('<').next().unwrap_or("")));
+    }
+    ctx.nontrivial(hash_str(&format!("native|{label}|{}", bytes.len())));
+    ctx.sample(|| json!({"types": label, "bytes": hex(&bytes)}));
+}
+
+fn untyped_case(ctx: &mut Ctx, rng: &mut Rng, cfg: &TypeCfg) {
+    let env = gen_env(rng, cfg);
+    let n = rng.usize(4);
+    let cand = gen_types(rng, cfg, &env, n);
+    let vg = ValGen::new(&env);
+    let mut fuel = *rng.pick(&[5i64, 25, 60]);
+    let mut ts = Vec::new();
+    let mut vals = Vec::new();
+    for t in cand {
+        if !encodable(&env, &t) {
+            continue;
+        }
+        if let Some(v) = vg.gen(rng, &t, &mut fuel) {
+            ts.push(t);
+            vals.push(v);
+        }
+    }
+    let names = if rng.bool() { gen_names(rng, &env, &ts) } else { Names::new() };
+    let (cenv, cts) = candid_side(&env, &ts, Some(&names));
+    let mut idl = Vec::new();
+    for (t, v) in ts.iter().zip(vals.iter()) {
+        match to_idl(&env, t, v, Some(&names)) {
+            Ok(x) => idl.push(x),
+            Err(_) => return,
+        }
+    }
+    let args = IDLArgs { args: idl };
+    let label = format!("env=[{env}] types={:?}", ts.iter().map(|t| t.to_string()).collect::<Vec<_>>());
+    let detail = json!({"value": args.to_string().chars().take(800).collect::<String>(), "names": names.len()});
+    // reserved positions read back as `reserved` regardless of the source value
+    let want: Vec<RValue> = vals.clone();
+    match catch(|| args.to_bytes_with_types(&cenv, &cts)) {
+        Err(p) => ctx.violation(&format!("panic|to_bytes_with_types|{}", p.sig()), &p.message, json!({"source": label, "detail": detail})),
+        Ok(Err(e)) => ctx.violation(
+            &format!("encode-fails|to_bytes_with_types|{}", err_class(&e)),
+            &format!("typed encoding of a well-typed value failed: {e}"),
+            json!({"source": label, "detail": detail}),
+        ),
+        Ok(Ok(bytes)) => {
+            if judge(ctx, "to_bytes_with_types", &bytes, &env, &ts, &want, &label, detail.clone()) {
+                if let Ok(Ok(again)) = catch(|| args.to_bytes_with_types(&cenv, &cts)) {
+                    if again != bytes {
+                        ctx.violation("nondeterministic|to_bytes_with_types", "same arguments, different bytes", json!({"first": hex(&bytes), "second": hex(&again)}));
+                    }
+                }
+            }
+            ctx.nontrivial(hash_str(&format!("untyped|{:?}|{}", ts.iter().map(|t| shape(&env, t, 4)).collect::<Vec<_>>(), bytes.len())));
+        }
+    }
+    // builder entry point, one argument at a time
+    let r = catch(|| {
+        let mut b = IDLBuilder::new();
+        for (i, (v, t)) in args.args.iter().zip(cts.iter()).enumerate() {
+            if i == 0 {
+                b.value_arg_with_type(v, &cenv, t)?;
+            } else {
+                b.value_arg_with_type(v, &candid::TypeEnv::new(), t)?;
+            }
+        }
+        b.serialize_to_vec()
+    });
+    match r {
+        Err(p) => ctx.violation(&format!("panic|value_arg_with_type|{}", p.sig()), &p.message, json!({"source": label})),
+        Ok(Err(e)) => {
+            if !args.args.is_empty() {
+                ctx.violation(&format!("encode-fails|value_arg_with_type|{}", err_class(&e)), &e.to_string(), json!({"source": label, "detail": detail}))
+            }
+        }
+        Ok(Ok(bytes)) => {
+            judge(ctx, "value_arg_with_type", &bytes, &env, &ts, &want, &label, detail.clone());
+        }
+    }
+    // no types: the value's own type is inferred (a vector's element type from its first element), so
+    // this only applies to values as the decoder returns them whose vectors are homogeneous
+    let decoded = catch(|| args.to_bytes_with_types(&cenv, &cts).and_then(|b| IDLArgs::from_bytes_with_types(&b, &cenv, &cts)));
+    let Ok(Ok(args2)) = decoded else { return };
+    if !args2.args.iter().all(|v| inferred_shape(v).is_some()) {
+        ctx.count("excluded:to_bytes-heterogeneous-vector");
+        return;
+    }
+    match catch(|| args2.to_bytes()) {
+        Err(p) => ctx.violation(&format!("panic|to_bytes|{}", p.sig()), &p.message, json!({"source": label, "detail": detail})),
+        Ok(Err(e)) => ctx.violation(&format!("encode-fails|to_bytes|{}", err_class(&e)), &e.to_string(), json!({"source": label, "detail": detail})),
+        Ok(Ok(bytes)) => match decode(&bytes) {
+            Err(DecErr::OverLimit(_)) => {}
+            Err(DecErr::Malformed(m)) => {
+                let class: String = m.chars().filter(|c| !c.is_ascii_digit()).collect();
+                ctx.violation(&format!("malformed-output|to_bytes|{class}"), &format!("reference decoder rejects: {m}"), json!({"bytes": hex(&bytes), "source": label, "detail": detail}))
+            }
+            Ok(d) => {
+                if d.nonminimal {
+                    ctx.violation("nonminimal-leb|to_bytes", "non-minimal LEB128 in output", json!({"bytes": hex(&bytes)}));
+                }
+                // `reserved` values are written as null without a type annotation
+                let want2: Vec<RValue> = args2.args.iter().map(|v| reserved_as_null(&model_value(v))).collect();
+                let got: Vec<RValue> = d.values.iter().map(reserved_as_null).collect();
+                if let Some(df) = diff_all(&want2, &got) {
+                    ctx.violation("value-differs|to_bytes", &format!("source (left) vs read back (right): {df}"), json!({"bytes": hex(&bytes), "source": label, "detail": detail}));
+                } else {
+                    ctx.count("agree:to_bytes");
+                }
+            }
+        },
+    }
+    ctx.sample(|| json!({"source": label}));
+}
+
+/// Shape of the type `to_bytes` has to infer for a value; None when a vector's elements disagree
+/// (the inferred type of a vector is that of its first element, so such values have no single type).
+fn inferred_shape(v: &candid::IDLValue) -> Option<String> {
+    use candid::IDLValue as V;
+    Some(match v {
+        V::Opt(x) => format!("opt {}", inferred_shape(x)?),
+        V::None => "opt empty".into(),
+        V::Vec(xs) => {
+            let mut first: Option<String> = None;
+            for x in xs {
+                let s = inferred_shape(x)?;
+                match &first {
+                    None => first = Some(s),
+                    Some(f) if *f == s => {}
+                    _ => return None,
+                }
+            }
+            format!("vec {}", first.unwrap_or_else(|| "empty".into()))
+        }
+        V::Record(fs) => {
+            let mut out = String::from("record{");
+            for f in fs {
+                out.push_str(&format!("{}:{};", f.id.get_id(), inferred_shape(&f.val)?));
+            }
+            out + "}"
+        }
+        V::Variant(x) => format!("variant{{{}:{}}}", x.0.id.get_id(), inferred_shape(&x.0.val)?),
+        V::Blob(_) => "blob".into(),
+        V::Null => "null".into(),
+        V::Reserved => "reserved".into(),
+        V::Bool(_) => "bool".into(),
+        V::Text(_) => "text".into(),
+        V::Number(_) | V::Int(_) => "int".into(),
+        V::Nat(_) => "nat".into(),
+        V::Nat8(_) => "nat8".into(),
+        V::Nat16(_) => "nat16".into(),
+        V::Nat32(_) => "nat32".into(),
+        V::Nat64(_) => "nat64".into(),
+        V::Int8(_) => "int8".into(),
+        V::Int16(_) => "int16".into(),
+        V::Int32(_) => "int32".into(),
+        V::Int64(_) => "int64".into(),
+        V::Float32(_) => "float32".into(),
+        V::Float64(_) => "float64".into(),
+        V::Principal(_) => "principal".into(),
+        V::Service(_) => "service".into(),
+        V::Func(..) => "func".into(),
+    })
+}
+
+fn reserved_as_null(v: &RValue) -> RValue {
+    match v {
+        RValue::Reserved => RValue::Null,
+        RValue::Opt(x) => RValue::opt(reserved_as_null(x)),
+        RValue::Vec(xs) => RValue::Vec(xs.iter().map(reserved_as_null).collect()),
+        RValue::Record(fs) => RValue::Record(fs.iter().map(|(i, x)| (*i, reserved_as_null(x))).collect()),
+        RValue::Variant(i, x) => RValue::Variant(*i, Box::new(reserved_as_null(x))),
+        x => x.clone(),
+    }
+}
+
+pub fn run(ctx: &mut Ctx) {
+    let cfg = TypeCfg::default();
+    ctx.cases("native-corpus", 0.5, native_case);
+    ctx.cases("untyped", 0.5, |ctx, rng| untyped_case(ctx, rng, &cfg));
+}
